@@ -14,6 +14,10 @@ ASSUMPTIONS = ["Python exception plumbing is modelled as control flow only (whic
 CALLBACKS = ["init", "before_trading", "open_auction", "handle_bar", "after_trading", "scheduled", "post_bar_handler"]
 
 
+class _HarnessStop(BaseException):
+    pass
+
+
 def one_run(ctx, corr):
     import probe_mods, fault_source
     from rqalpha.environment import Environment
@@ -49,6 +53,10 @@ def one_run(ctx, corr):
     calls = []
     seen = {}
     state = {"faulted": False}
+    # what a strategy bug raises: an ordinary exception, or one outside the Exception hierarchy (sys.exit() in user code, a library's own BaseException)
+    user_exc_kind = rnd.choice(["ValueError", "ValueError", "SystemExit", "BaseException"])
+    user_exc = {"ValueError": ValueError("strategy bug injected by the harness"), "SystemExit": SystemExit(0),
+                "BaseException": _HarnessStop("strategy bug injected by the harness")}[user_exc_kind]
 
     def hit(name):
         """called at the entry of every strategy callback"""
@@ -58,7 +66,7 @@ def one_run(ctx, corr):
             state["faulted"] = True
             probe_mods.LOG.append(("callback_fault", name))
             if origin == "user":
-                raise ValueError("strategy bug injected by the harness")
+                raise user_exc
             import rqalpha.api as api
             if origin == "api_user":
                 if name in ("init", "before_trading", "after_trading"):
@@ -107,7 +115,7 @@ def one_run(ctx, corr):
     line = "RUNCTL %d %d %d %s %d %s" % (n_cb if not has_fault else n_cb + 5, int(has_fault), fi, model_origin, 5 * len(mods),
                                         " ".join("%d %d %d %d %s" % (m["tag"], m["prio"], m["start"] == "raise", m["teardown"] == "raise", (m["value"] if m["teardown"] == "value" else "-")) for m in mods))
     any_start_fail = any(m["start"] == "raise" for m in mods)
-    rp = {"mods": mods, "origin": origin, "fault_callback": fault_cb, "occurrence": fault_occ, "callbacks_run": len(calls)}
+    rp = {"mods": mods, "origin": origin, "raises": user_exc_kind if origin == "user" else None, "fault_callback": fault_cb, "occurrence": fault_occ, "callbacks_run": len(calls)}
     if ctx.driver_ok:
         rep = vlib.ask_driver([line])[0].split()
         m_code, m_ret, m_log = rep[0], rep[1], rep[2:]
@@ -155,7 +163,7 @@ def one_run(ctx, corr):
         if later:
             ctx.witness("C19.4", {"kind": "events_after_fault", "events": sorted(set(later))[:4]}, "after the fault (%s) the run still published %s" % (log[marks[0]], later[:8]), rp)
         ctx.stats["events_checked_after_fault"] += 1
-    ctx.nontrivial(origin, fault_cb if state["faulted"] else None, tuple(m["teardown"] for m in mods), tuple(m["prio"] for m in mods), any_start_fail)
+    ctx.nontrivial(origin, user_exc_kind if origin == "user" else None, fault_cb if state["faulted"] else None, tuple(m["teardown"] for m in mods), tuple(m["prio"] for m in mods), any_start_fail)
     ctx.stats["runs_" + origin] += 1
     ctx.stats["faults_fired"] += int(has_fault)
     ctx.sample({"mods": [(m["tag"], m["prio"], m["teardown"]) for m in mods], "origin": origin, "fault": fault_cb, "starts": starts, "teardowns": tds, "callbacks_run": len(calls)})
